@@ -7,6 +7,14 @@ BINARIES = {
     # sequential differential harnesses; epoch period 1 ms so reclamation is live during the programs
     "seq-asan": {"flavor": "asan", "sources": SEQ_SOURCES,
                  "defines": {"YAKUSHIMA_EPOCH_TIME": 1, "YAKUSHIMA_MAX_PARALLEL_SESSIONS": 64}},
+    "unit-asan": {"flavor": "asan", "sources": ["unit/main.cpp", "unit/u_version.cpp", "unit/u_compare.cpp", "unit/u_perm.cpp", "common/allocreg.cpp"],
+                  "defines": {"YAKUSHIMA_EPOCH_TIME": 1, "YAKUSHIMA_MAX_PARALLEL_SESSIONS": 64}},
+    "unit-plain": {"flavor": "plain", "sources": ["unit/main.cpp", "unit/u_version.cpp", "unit/u_compare.cpp", "unit/u_perm.cpp", "common/allocreg.cpp"],
+                   "defines": {"YAKUSHIMA_EPOCH_TIME": 1, "YAKUSHIMA_MAX_PARALLEL_SESSIONS": 64}},
+    "conc-plain": {"flavor": "plain", "sources": ["conc/main.cpp", "conc/c_lin.cpp", "conc/c_scan.cpp", "conc/c_phantom.cpp", "common/allocreg.cpp"],
+                   "defines": {"YAKUSHIMA_EPOCH_TIME": 1, "YAKUSHIMA_MAX_PARALLEL_SESSIONS": 64}},
+    "conc-asan": {"flavor": "asan", "sources": ["conc/main.cpp", "conc/c_lin.cpp", "conc/c_scan.cpp", "conc/c_phantom.cpp", "common/allocreg.cpp"],
+                  "defines": {"YAKUSHIMA_EPOCH_TIME": 1, "YAKUSHIMA_MAX_PARALLEL_SESSIONS": 64}},
 }
 
 
@@ -44,5 +52,57 @@ CHECKS = {
         "quick": [run("seq_memusage", "seq-asan", mode="memusage", prop="C20", trees=150, snaps=20, repeat=2)],
         "thorough": [run("seq_memusage", "seq-asan", mode="memusage", prop="C20", trees=4000, snaps=30, repeat=16, timeout=3000)],
         "parallel": {"quick": 2, "thorough": 16},
+    },
+    "C17": {
+        "title": "node version word protocol",
+        "quick": [run("seq_version", "unit-asan", mode="version", part="seq", prop="C17", random=200000),
+                  run("conc_version_asan", "unit-asan", mode="version", part="conc", prop="C17", acq=60000, lockers=6, readers=3),
+                  run("conc_version_plain", "unit-plain", mode="version", part="conc", prop="C17", acq=400000, lockers=8, readers=4, delays=0),
+                  run("conc_version_plain_delays", "unit-plain", mode="version", part="conc", prop="C17", acq=150000, lockers=4, readers=2, delays=1)],
+        "thorough": [run("seq_version", "unit-asan", mode="version", part="seq", prop="C17", random=10000000, timeout=3000),
+                     run("conc_version_asan", "unit-asan", mode="version", part="conc", prop="C17", acq=2000000, lockers=8, readers=4, timeout=3000, repeat=2),
+                     run("conc_version_plain", "unit-plain", mode="version", part="conc", prop="C17", acq=30000000, lockers=12, readers=4, delays=0, timeout=3000, repeat=2),
+                     run("conc_version_plain_delays", "unit-plain", mode="version", part="conc", prop="C17", acq=5000000, lockers=6, readers=3, delays=1, timeout=3000, repeat=4)],
+        "parallel": {"quick": 1, "thorough": 1},
+    },
+    "C18": {
+        "title": "all comparison sites implement bytewise order",
+        "quick": [run("seq_compare", "unit-asan", mode="compare", prop="C18", random=200000, sets=15000, splits=3000)],
+        "thorough": [run("seq_compare", "unit-asan", mode="compare", prop="C18", random=3000000, sets=400000, splits=100000, repeat=8, timeout=3000)],
+        "parallel": {"quick": 1, "thorough": 8},
+    },
+    "C19": {
+        "title": "permutation word encodes a valid ordering; atomic publication",
+        "quick": [run("seq_perm", "unit-asan", mode="perm", part="seq", prop="C19", random=1500, exhaustive_n=6),
+                  run("conc_perm", "unit-plain", mode="perm", part="conc", prop="C19", ops=1000000, readers=3)],
+        "thorough": [run("seq_perm", "unit-asan", mode="perm", part="seq", prop="C19", random=100000, exhaustive_n=8, timeout=3000),
+                     run("conc_perm", "unit-plain", mode="perm", part="conc", prop="C19", ops=30000000, readers=4, timeout=3000, repeat=2)],
+        "parallel": {"quick": 2, "thorough": 2},
+    },
+    "C10": {
+        "title": "cursor API enumerates the interval in both directions",
+        "quick": [run("seq_iscan", "seq-asan", mode="iscan", prop="C10", trees=160, cursors=60, steppers=20, repeat=2)],
+        "thorough": [run("seq_iscan", "seq-asan", mode="iscan", prop="C10", trees=4000, cursors=100, steppers=40, repeat=16, timeout=3000)],
+        "parallel": {"quick": 2, "thorough": 16},
+    },
+    "C13": {
+        "title": "storages are isolated namespaces",
+        "quick": [run("seq_storage", "seq-asan", mode="storage", prop="C13", programs=120, ops=300, repeat=2)],
+        "thorough": [run("seq_storage", "seq-asan", mode="storage", prop="C13", programs=3000, ops=400, repeat=16, timeout=3000)],
+        "parallel": {"quick": 2, "thorough": 16},
+    },
+    "C15": {
+        "title": "values round-trip exactly; updates are atomic",
+        "quick": [run("seq_value", "seq-asan", mode="value", prop="C15", chains=300)],
+        "thorough": [run("seq_value", "seq-asan", mode="value", prop="C15", chains=20000, big=1, repeat=4, timeout=3000)],
+        "parallel": {"quick": 2, "thorough": 4},
+    },
+    "C01": {
+        "title": "point operations are linearizable",
+        "quick": [run("conc_lin_plain", "conc-plain", mode="lin", prop="C01", rounds=1500, repeat=2),
+                  run("conc_lin_asan", "conc-asan", mode="lin", prop="C01", rounds=400)],
+        "thorough": [run("conc_lin_plain", "conc-plain", mode="lin", prop="C01", rounds=60000, repeat=4, timeout=3400),
+                     run("conc_lin_asan", "conc-asan", mode="lin", prop="C01", rounds=8000, repeat=2, timeout=3400)],
+        "parallel": {"quick": 1, "thorough": 2},
     },
 }
